@@ -410,6 +410,8 @@ def _custom_iter(self, ex, st, fr, node, it, ordinal):
     spec = ex.loopspecs.get(ordinal) if ordinal is not None else None
     if spec is None:
         raise Unsupported("dict iteration without invariant")
+    if hasattr(spec, "accepts") and not spec.accepts(node):
+        raise Unsupported("loop %s does not have the shape its invariant was written for" % ordinal)
     arr = st.get(it, "arr").t
     SEEN = tm.arr_sort(STR, BOOL)
     tag = "%s::loop%d" % (ex.root[1] if ex.root else fr.qual, ordinal)
